@@ -175,3 +175,8 @@ C20 = ("C20",)
 R("a62504f0c5", "env", "TextEncoder::encode into a Vec fails only for a metric family without samples or with an invalid name; the families "
   "are the crate's own constant registrations", props=C20)
 R("08eac32c12", "internal", "offset + count: offset <= len(buffer) (cursor invariant), count <= 255 (an option length octet)", props=C20, requires=("C05.inv",))
+
+# ------------------------------------------------------------------ loops the termination rule cannot classify
+REVIEWED_LOOPS["erbium_net::packet::finish_netsum"] = (
+    "while sum > 0xffff { sum = (sum >> 16) + (sum & 0xffff) }: for sum > 0xffff the new value is at most 0xffff + (sum >> 16) < sum, "
+    "so the value strictly decreases until it fits 16 bits (at most two rounds for a 32-bit sum); shape checked by C12.R7")
